@@ -50,6 +50,8 @@ Section Modes.
   Notation CK := (clean_kind vr w rc rp ro).
 
   Hypothesis Hflip : vr_ref_flip_unreg vr = true.
+  (* observable containers are outside these lemmas *)
+  Hypothesis Hnoobs : forall vv, P (obs_tag vv) = false.
 
   (* the nested constructor: a custom-free result does not depend on the mode *)
   Definition rc_mode : Prop :=
@@ -121,7 +123,8 @@ Section Modes.
     forall a a' interop v p, plain_json v = true ->
     CK k a interop v = Ok (p, false) -> CK k a' interop v = Ok (p, false).
   Proof.
-    induction k; intros Hk a a' interop jv pv Hv H; cbn [kind_proved] in Hk; try discriminate; cbn [clean_kind] in *; try exact H.
+    induction k; intros Hk a a' interop jv pv Hv H; cbn [kind_proved] in Hk; try discriminate;
+      try (rewrite Hnoobs in Hk; discriminate); cbn [clean_kind] in *; try exact H.
     - (* hashes *) unfold clean_hashes, bind in *. destruct (clean_dictionary vr v jv); try discriminate.
       eapply hashes_loop_mode; eauto.
     - (* reference *) eapply clean_reference_mode; eauto.
